@@ -31,3 +31,22 @@ Definition nv_prog2 : ast :=
   ALet nv_g (ACall (AClosure [nv_x] (AClosure [nv_y] (AOp op_add (AIdent nv_x) (AIdent nv_y)) [nv_x] false []) [] false [])
                    [AConst (VInt 1)])
     (AOp op_add (ACall (AIdent nv_g) [AConst (VInt 2)]) (AIdent nv_a)).
+
+(* trace examples: (x -> tick(1, x) + 1)(2) + tick(2, 3) + (1 + 2) - two host calls, one inside a closure
+   that is applied to a constant (not folded: its body calls a function that is not flagged pure),
+   next to a constant sub-expression that is folded *)
+Definition n_tick_ex : name := [116; 105; 99; 107]%N.
+Definition nv_prog3 : ast :=
+  AOp op_add
+    (AOp op_add
+       (ACall (AClosure [nv_x] (AOp op_add (AStatic n_tick_ex [AConst (VInt 1); AIdent nv_x]) (AConst (VInt 1))) [] false [])
+              [AConst (VInt 2)])
+       (AStatic n_tick_ex [AConst (VInt 2); AConst (VInt 3)]))
+    (AOp op_add (AConst (VInt 1)) (AConst (VInt 2))).
+(* an oracle: tick answers the sum of its two integer arguments *)
+Definition host_ex (f : name) (vs : list value) : res value :=
+  match vs with [VInt a; VInt b] => Ok (VInt (a + b)) | _ => Err None end.
+(* tick(x -> 1 + 2): the argument is a closure; the optimizer folds the literal to a closure constant
+   with the folded body, so the event's argument is related, not equal *)
+Definition nv_prog4 : ast :=
+  AStatic n_tick_ex [AClosure [nv_x] (AOp op_add (AConst (VInt 1)) (AConst (VInt 2))) [] false []].
